@@ -1649,6 +1649,70 @@ fn hs_initiate(hs: &Handshake, reply: &[u8]) -> (HsOut, Result<Hand, String>) {
 	(out, hand)
 }
 
+/// The handshake frame and the peer's next message arrive coalesced (one TCP write, before the
+/// handshake code reads anything) or with the stream cut at `cut`: once the handshake has returned
+/// the connection is handed to the codec, which must read `follow` as the next message.  Returns
+/// (handshake result, bytes left in our socket when the handshake returned, what the codec read).
+fn hs_then(hs: &Handshake, accept: bool, first: &[u8], follow: &[u8], cut: Option<usize>) -> (HsOut, usize, Option<Ev>) {
+	let (mut peer, mut conn) = if accept {
+		pair()
+	} else {
+		let (c, p) = pair();
+		(p, c)
+	};
+	let _ = peer.set_read_timeout(Some(Duration::from_secs(5)));
+	let _ = peer.set_nodelay(true);
+	let mut all = first.to_vec();
+	all.extend_from_slice(follow);
+	let writer = match cut {
+		None => {
+			peer.write_all(&all).unwrap();
+			None
+		}
+		Some(c) => {
+			peer.write_all(&all[..c]).unwrap();
+			let mut p2 = peer.try_clone().unwrap();
+			let rest = all[c..].to_vec();
+			Some(std::thread::spawn(move || {
+				std::thread::sleep(Duration::from_millis(15));
+				let _ = p2.write_all(&rest);
+			}))
+		}
+	};
+	let res = if accept {
+		hs.accept(Capabilities::default(), Difficulty::from_num(5), &mut conn)
+	} else {
+		hs.initiate(Capabilities::default(), Difficulty::from_num(5), PeerAddr("127.0.0.1:3414".parse().unwrap()), &mut conn)
+	};
+	let out = hs_class(&res);
+	if let Some(w) = writer {
+		let _ = w.join();
+	}
+	let v = match &out {
+		HsOut::Ok(v) => *v,
+		_ => return (out, 0, None),
+	};
+	// the whole stream has been written by now and loopback delivery is immediate
+	let mut left = inq(&conn);
+	for _ in 0..200 {
+		if left >= follow.len() {
+			break;
+		}
+		std::thread::sleep(Duration::from_millis(1));
+		left = inq(&conn);
+	}
+	if left == 0 {
+		return (out, 0, None);
+	}
+	let mut codec = Codec::new(ProtocolVersion(v), conn);
+	let (m, _) = codec.read();
+	let ev = match m {
+		Ok(m) => digest(m, v, &mut codec),
+		Err(e) => Ev::Err(err_class(&e)),
+	};
+	(out, left, Some(ev))
+}
+
 fn handshake(_tier: Tier) -> Report {
 	uni::init_thread();
 	let mut r = Report::new();
@@ -1721,6 +1785,61 @@ fn handshake(_tier: Tier) -> Report {
 		r.outcome("initiate:refused-genesis");
 		if out != HsOut::Err("GenesisMismatch".into()) {
 			r.violation("handshake:initiate-genesis", format!("initiate answered by a Shake with another genesis (version {}): {:?}", v, out), json!({"kind": "handshake", "side": "initiate-genesis", "remote_version": v}));
+		}
+	}
+	// ---- the handshake frame followed by the peer's next message in the same byte stream
+	{
+		let ping_msg = grin_p2p::msg::Ping { total_difficulty: Difficulty::from_num(77), height: 9 };
+		let mut follows: Vec<(&str, Vec<u8>, Ev)> = vec![];
+		for &v in REMOTE_VERSIONS.iter() {
+			let _ = v;
+		}
+		let pbody = ser(&ping_msg, local);
+		let mut pw = raw_header(magic(), Type::Ping as u8, pbody.len() as u64);
+		pw.extend(pbody.clone());
+		follows.push(("ping", pw, Ev::Msg(Type::Ping as u8, pbody)));
+		follows.push(("unknown-type", unknown.clone(), Ev::Unknown(200)));
+		let mut gp = raw_header(magic(), Type::GetPeerAddrs as u8, 4);
+		gp.extend(vec![0, 0, 0, 1]);
+		follows.push(("get-peer-addrs", gp, Ev::Msg(Type::GetPeerAddrs as u8, vec![0, 0, 0, 1])));
+		for &v in [1u32, local, 1000].iter() {
+			for accept in [true, false] {
+				let first = if accept { hand_frame(v, 0x3333_0000 + v as u64, genesis, 40_010) } else { shake_frame(v, genesis) };
+				for (fname, follow, want_ev) in follows.iter() {
+					// coalesced, cut exactly between the two frames, cut inside the handshake frame,
+					// cut inside the following frame
+					let cuts: Vec<Option<usize>> = vec![None, Some(first.len()), Some(FRAME), Some(first.len() / 2), Some(first.len() + 1), Some(first.len() + FRAME)];
+					for cut in cuts {
+						let hs = Handshake::new(genesis, P2PConfig::default());
+						let (out, left, ev) = hs_then(&hs, accept, &first, follow, cut);
+						r.evaluations += 1;
+						r.distinct += 1;
+						let side = if accept { "accept" } else { "initiate" };
+						r.outcome(&format!("{}:then-message-delivered", side));
+						let case = json!({"kind": "handshake-then", "side": side, "remote_version": v, "follow": fname, "cut": cut});
+						if out != HsOut::Ok(v.min(local)) {
+							r.violation(format!("handshake:{}-then:version", side), format!("{} with remote version {} followed by {} (cut {:?}): {:?}", side, v, fname, cut, out), case.clone());
+							continue;
+						}
+						if left != follow.len() || ev.as_ref() != Some(want_ev) {
+							r.violation(
+								format!("handshake:{}-then:message-lost", side),
+								format!(
+									"{} with remote version {} followed by a {} message in the same stream (cut {:?}): after the handshake {} of its {} bytes are left in the socket and the codec reads {}",
+									side,
+									v,
+									fname,
+									cut,
+									left,
+									follow.len(),
+									ev.map(|e| e.brief()).unwrap_or_else(|| "nothing".into())
+								),
+								case,
+							);
+						}
+					}
+				}
+			}
 		}
 	}
 	// ---- self connection: every nonce we send out must be refused when it comes back in
@@ -1874,7 +1993,7 @@ impl Engine for C19 {
 				let (class, f, sample) = check_count(&mut rig, &hb, n, case["count"].as_u64().ok_or("count")? as u16);
 				verdict(f, format!("{} {}", class, sample))
 			}
-			Some("handshake") => {
+			Some("handshake") | Some("handshake-then") => {
 				let r = handshake(Tier::Quick);
 				match r.violations.iter().find(|v| &v.case == case).or(r.violations.first()) {
 					Some(v) => Err(format!("{}: {}", v.key, v.what)),
